@@ -52,6 +52,7 @@ def bind_src(src):
     warnings.filterwarnings("ignore", message="Error reading persistent compilation cache")
     warnings.filterwarnings("ignore", message="Error writing persistent compilation cache")
     warnings.filterwarnings("ignore", message="A JAX array is being set as static")
+    warnings.filterwarnings("ignore", message="When `eqx.nn.BatchNorm")
     import jax
 
     cache = os.environ.get("VERIF_XLA_CACHE", os.path.join(VERIF, ".cache", "xla"))
